@@ -71,12 +71,20 @@ class Built:
                 tail = f"return call_next({args})"
             else:
                 tail = f"return ('ret', {mid})"
+        elif body == "rec":
+            npos = len(d["pos"])
+            if d["npos_req"] == npos and not d.get("kw"):
+                args = ", ".join(f"a{i}" for i in range(npos))
+                tail = (f"if len(RECUR) < 1:\n        RECUR.append(1)\n        try:\n            return recurse({args})\n"
+                        f"        finally:\n            RECUR.pop()\n    return ('ret', {mid})")
+            else:
+                tail = f"return ('ret', {mid})"
         else:
             raise ValueError(body)
         src = f"def m{mid}({', '.join(params)}):\n    {rec}\n    {tail}\n"
         fname = f"<verif-prog-{next(_file_ids)}>"
         linecache.cache[fname] = (len(src), None, src.splitlines(True), fname)
-        glb = {"LOG": self.log, "DEFAULT": DEFAULT, "call_next": call_next, "recurse": recurse, "__name__": "verif_prog"}
+        glb = {"LOG": self.log, "RECUR": [], "DEFAULT": DEFAULT, "call_next": call_next, "recurse": recurse, "__name__": "verif_prog"}
         exec(compile(src, fname, "exec"), glb)
         fn = glb[f"m{mid}"]
         fn.__annotations__ = anns
